@@ -43,6 +43,19 @@ type C16Cfg struct {
 	Domain  string      `json:"domain"`
 	Attacks []C16Attack `json:"attacks"`
 	Honest  int         `json:"honest"` // honest messages per ordered pair
+	// HonestSize pads the honest messages to this many bytes (0: a few bytes). What a party received is compared
+	// with what was sent at the END of the run, byte for byte: nothing another connection does afterwards may
+	// change a message that was handed over.
+	HonestSize int `json:"honestSize,omitempty"`
+}
+
+// c16HonestPayload is the m-th honest message from i to j.
+func c16HonestPayload(i, j, m, size int) []byte {
+	b := []byte(fmt.Sprintf("honest/%d/%d/%d/", i, j, m))
+	for len(b) < size {
+		b = append(b, byte('a'+(i*7+j*3+m+len(b)%5)%26))
+	}
+	return b
 }
 
 var c16Variants = []string{
@@ -53,7 +66,7 @@ var c16Variants = []string{
 	"domain-altered-after-signing", "domain-other-signed",
 	"key-rsa", "key-ed25519", "key-p384",
 	"registered-rsa-garbage-signature", "registered-rsa-own-signature", "registered-ed25519-garbage-signature", "registered-ed25519-own-signature",
-	"truncated", "length-prefix-short", "length-prefix-long", "not-asn1", "trailing-bytes",
+	"truncated", "length-prefix-short", "length-prefix-long", "not-asn1", "trailing-bytes", "not-asn1-large",
 }
 
 func genC16(seed uint64, index int, tier string) C16Cfg {
@@ -64,6 +77,9 @@ func genC16(seed uint64, index int, tier string) C16Cfg {
 	}
 	if r.Bool(0.4) {
 		c.Domain = fmt.Sprintf("dom-%d", r.Intn(5))
+	}
+	if rs := prng.Derive(seed, "honest-size"); rs.Bool(0.4) {
+		c.HonestSize = []int{4096, 8192, 30000}[rs.Intn(3)]
 	}
 	na := r.Range(2, 6)
 	for k := 0; k < na; k++ {
@@ -306,6 +322,8 @@ func runC16(t *testing.T, spec RunSpec) *RunResult {
 				raw = handshakeFrame(prng.Derive(spec.Seed, "noise").Bytes(100 + a.Cut))
 			case "trailing-bytes":
 				raw = handshakeFrame(append(h.Bytes(), 1, 2, 3))
+			case "not-asn1-large":
+				raw = handshakeFrame(bytes.Repeat([]byte{'Z'}, 4096+(a.Cut*137)%56000))
 			}
 			var sent []byte
 			if raw == nil {
@@ -344,7 +362,7 @@ func runC16(t *testing.T, spec RunSpec) *RunResult {
 							honestTotal += cfg.Honest
 							go func() {
 								for m := 0; m < cfg.Honest; m++ {
-									cw.parties[i].remotes.Send(2, sha([]byte("honest")), []byte(fmt.Sprintf("honest/%d/%d/%d", i, j, m)), uint16(j))
+									cw.parties[i].remotes.Send(2, sha([]byte("honest")), c16HonestPayload(i, j, m, cfg.HonestSize), uint16(j))
 								}
 								honestDone++
 							}()
@@ -401,9 +419,14 @@ func runC16(t *testing.T, spec RunSpec) *RunResult {
 					var i, j, k int
 					fmt.Sscanf(string(m.Data), "honest/%d/%d/%d", &i, &j, &k)
 					if int(m.From) != i || j != id || m.Domain != cfg.Domain {
-						viol("honest-misattributed", fmt.Sprintf("party %d received %q attributed to node %d under domain %q", id, m.Data, m.From, m.Domain))
+						viol("honest-misattributed", fmt.Sprintf("party %d received %q attributed to node %d under domain %q", id, m.Data[:min(40, len(m.Data))], m.From, m.Domain))
+					} else if !bytes.Equal(m.Data, c16HonestPayload(i, j, k, cfg.HonestSize)) {
+						viol("content-not-sent", fmt.Sprintf("the message that party %d holds as message %d of node %d (%d bytes) is not what node %d sent: %d bytes differ, e.g. %q", id, k, m.From, len(m.Data), m.From, diffCount(m.Data, c16HonestPayload(i, j, k, cfg.HonestSize)), firstDiff(m.Data, c16HonestPayload(i, j, k, cfg.HonestSize))))
 					}
 					continue
+				}
+				if !bytes.Equal(m.Topic, markerTopic) || !bytes.HasPrefix(m.Data, []byte("attack-")) || len(m.Data) > 12 {
+					viol("content-not-sent", fmt.Sprintf("party %d holds a message attributed to node %d that nobody sent in this form: %q", id, m.From, m.Data[:min(60, len(m.Data))]))
 				}
 				if bytes.Equal(m.Topic, markerTopic) {
 					surfaced[string(m.Data)] = m
@@ -438,6 +461,28 @@ func runC16(t *testing.T, spec RunSpec) *RunResult {
 		fillResult(res, w, ss)
 	})
 	return res
+}
+
+func diffCount(a, b []byte) int {
+	n := 0
+	for i := 0; i < len(a) && i < len(b); i++ {
+		if a[i] != b[i] {
+			n++
+		}
+	}
+	if len(a) > len(b) {
+		return n + len(a) - len(b)
+	}
+	return n + len(b) - len(a)
+}
+
+func firstDiff(a, b []byte) []byte {
+	for i := 0; i < len(a) && i < len(b); i++ {
+		if a[i] != b[i] {
+			return a[i:min(i+24, len(a))]
+		}
+	}
+	return nil
 }
 
 func init() {
